@@ -182,7 +182,19 @@ void st_section(Resource &res, char op, const Spec &s, void (*inside)(const Spec
     vs_event(EV_DONE, op, me);
 }
 
+int g_nb;   // number of 'B' operations (read sections with a rendezvous inside) in the program of the execution in progress
+void st_op(Resource &res, char op, const Spec &s) {
+    if (op == 'B') st_section(res, 'R', s, [](const Spec &) { vs_cell_add(CELL_BARRIER, 1); vs_event(EV_BARRIER, 0, 0); vs_block_until(pred_barrier, (void *)(long)g_nb); });
+    else st_section(res, op, s);
+}
+void plain_op(Resource &res, char op, const Spec &s) {
+    if (op == 'B') section(res, 'R', s.guards, [] { vs_cell_add(CELL_BARRIER, 1); vs_event(EV_BARRIER, 0, 0); vs_block_until(pred_barrier, (void *)(long)g_nb); });
+    else section(res, op, s.guards, [] { vs_point(1); });
+}
+int count_b(const Spec &s) { int n = 0; for (auto &v : s.scripts) for (char c : v) n += c == 'B'; for (auto &v : s.late) for (char c : v) n += c == 'B'; return n; }
+
 void run_stateful(const Spec &s) {
+    g_nb = count_b(s);
     auto res = std::make_unique<Resource>();
     g_res = res.get(); g_st_share = s.check_share;
     vs_cell_set(CELL_EXPECT, s.check_excl ? 1 : 0);
@@ -195,7 +207,7 @@ void run_stateful(const Spec &s) {
             th.emplace_back([&res, &s] { st_section(*res, 'R', s, [](const Spec &sp) { vs_cell_add(CELL_BARRIER, 1); vs_event(EV_BARRIER, 0, 0); vs_block_until(pred_barrier, (void *)(long)sp.rendezvous); }); });
             vs_block_until(pred_parked, (void *)(long)(i + 1));
         }
-        for (size_t i = 0; i < s.late.size(); i++) th.emplace_back([&res, &s, i] { for (char op : s.late[i]) st_section(*res, op, s); });
+        for (size_t i = 0; i < s.late.size(); i++) th.emplace_back([&res, &s, i] { for (char op : s.late[i]) st_op(*res, op, s); });
         if (!s.late.empty()) vs_point(2);
         leave('W'); res->unlockWrite(); vs_cell_add(CELL_WACTIVE, -1); vs_cell_add(CELL_WDONE, 1);
     } else if (s.holder) {
@@ -204,16 +216,16 @@ void run_stateful(const Spec &s) {
         enter(s.holder);
         if (s.holder == 'W') vs_cell_add(CELL_WACTIVE, 1);
         for (int i = 0; i < nreq; i++) {
-            th.emplace_back([&res, &s, i] { for (char op : s.scripts[i]) st_section(*res, op, s); });
+            th.emplace_back([&res, &s, i] { for (char op : s.scripts[i]) st_op(*res, op, s); });
             if (s.ordered_arrival) vs_block_until(pred_parked, (void *)(long)(i + 1));
         }
-        for (size_t i = 0; i < s.late.size(); i++) th.emplace_back([&res, &s, i] { for (char op : s.late[i]) st_section(*res, op, s); });
+        for (size_t i = 0; i < s.late.size(); i++) th.emplace_back([&res, &s, i] { for (char op : s.late[i]) st_op(*res, op, s); });
         vs_point(2);
         leave(s.holder);
         if (s.holder == 'R') res->unlockRead(); else res->unlockWrite();
         if (s.holder == 'W') { vs_cell_add(CELL_WACTIVE, -1); vs_cell_add(CELL_WDONE, 1); }
     } else {
-        for (int i = 0; i < nreq; i++) th.emplace_back([&res, &s, i] { for (char op : s.scripts[i]) st_section(*res, op, s); });
+        for (int i = 0; i < nreq; i++) th.emplace_back([&res, &s, i] { for (char op : s.scripts[i]) st_op(*res, op, s); });
     }
     for (auto &t : th) t.join();
     if (s.check_idle) {
@@ -225,6 +237,7 @@ void run_stateful(const Spec &s) {
 }
 
 void run(const Spec &s) {
+    g_nb = count_b(s);
     auto res = std::make_unique<Resource>();
     g_res = res.get();
     vs_cell_set(CELL_EXPECT, s.check_excl ? 1 : 0);
@@ -248,22 +261,22 @@ void run(const Spec &s) {
             // late arrivals: started while the writer still holds, they issue their request whenever the schedule lets them - while the batch is still queued,
             // while its members are waking up one after the other, or after they are all inside; they are not part of the rendezvous
             for (size_t i = 0; i < s.late.size(); i++)
-                th.emplace_back([&res, &s, i] { for (char op : s.late[i]) section(*res, op, s.guards, [] { vs_point(1); }); });
+                th.emplace_back([&res, &s, i] { for (char op : s.late[i]) plain_op(*res, op, s); });
             if (!s.late.empty()) vs_point(2);
         });
     } else if (s.holder) {
         section(*res, s.holder, s.guards, [&] {
             for (int i = 0; i < nreq; i++) {
-                th.emplace_back([&res, &s, i] { for (char op : s.scripts[i]) section(*res, op, s.guards, [] { vs_point(1); }); });
+                th.emplace_back([&res, &s, i] { for (char op : s.scripts[i]) plain_op(*res, op, s); });
                 if (s.ordered_arrival) vs_block_until(pred_parked, (void *)(long)(i + 1));
             }
             for (size_t i = 0; i < s.late.size(); i++)
-                th.emplace_back([&res, &s, i] { for (char op : s.late[i]) section(*res, op, s.guards, [] { vs_point(1); }); });
+                th.emplace_back([&res, &s, i] { for (char op : s.late[i]) plain_op(*res, op, s); });
             vs_point(2);
         });
     } else {
         for (int i = 0; i < nreq; i++)
-            th.emplace_back([&res, &s, i] { for (char op : s.scripts[i]) section(*res, op, s.guards, [] { vs_point(1); }); });
+            th.emplace_back([&res, &s, i] { for (char op : s.scripts[i]) plain_op(*res, op, s); });
     }
     for (auto &t : th) t.join();
 
@@ -368,6 +381,15 @@ bool provider(const std::string &prop, const std::string &tier, const std::strin
         for (int k = 2; k <= (thorough ? 4 : 3); k++) { Spec s = base; s.rendezvous = k; add(suite, s, thorough ? 3 : 2, flavour); s.guards = true; if (k == 2) add(suite, s, 2, flavour); }
         for (auto &v : multisets(3, {"R", "W"})) if (v != std::vector<std::string>{"R", "R", "R"}) { Spec s = base; s.scripts = v; add(suite, s, 2, flavour); }
         { Spec s = base; s.scripts = {"R", "R", "W", "R"}; s.holder = 'W'; s.ordered_arrival = true; add(suite, s, 2, flavour); }
+        // read requests that queue up consecutively behind ONE writer are granted together even when the writer becomes active between their arrivals
+        // (B = read section whose holder waits inside for the other B's; no second writer exists that could legitimately separate them)
+        for (bool st : {false, true}) {
+            if (st && flavour != "plain") continue;
+            { Spec s = base; s.holder = 'R'; s.ordered_arrival = true; s.scripts = {"W", "B"}; s.late = {"B"}; s.stateful = st; add(suite, s, 2, flavour); }
+            { Spec s = base; s.holder = 'W'; s.ordered_arrival = true; s.scripts = {"B"}; s.late = {"B"}; s.stateful = st; add(suite, s, 2, flavour); }
+            { Spec s = base; s.holder = 'R'; s.ordered_arrival = true; s.scripts = {"W", "B"}; s.late = {"B", "B"}; s.stateful = st; add(suite, s, thorough ? 2 : 1, flavour); }
+            { Spec s = base; s.holder = 'R'; s.ordered_arrival = true; s.scripts = {"W", "B", "R"}; s.late = {"B"}; s.stateful = st; add(suite, s, thorough ? 2 : 1, flavour); }
+        }
         // a reader that arrives while the members of an admitted batch are still waking up must neither be held back nor disturb them
         { Spec s = base; s.rendezvous = 2; s.late = {"R"}; add(suite, s, 2, flavour); }
         { Spec s = base; s.rendezvous = 2; s.late = {"R", "R"}; add(suite, s, thorough ? 2 : 1, flavour); }
